@@ -4,6 +4,7 @@ HARNESSES = {
     "numeric_pbt": dict(sources=["numeric_pbt.cpp"], variant="san"),
     "codec_pbt": dict(sources=["codec_pbt.cpp"], variant="san"),
     "api_pbt": dict(sources=["api_pbt.cpp"], variant="san"),
+    "table_pbt": dict(sources=["table_pbt.cpp"], variant="san"),
 }
 
 _CODEC_ESS_KINDS = ["kind=v2.track_data", "kind=v2.beat_data", "kind=v2.quick_cues", "kind=v2.loops", "kind=v2.overview_waveform",
@@ -98,6 +99,22 @@ CHECKS = {
              essential=_CODEC_ESS_KINDS + ["mut:count", "frame:prefix", "frame:truncated-stream", "frame:short-raw", "frame:corrupt-stream",
                                            "zlib:returned", "zlib:rejected"]),
         dict(prop="C05.fuzz", kind="fuzz", targets=list(range(12)), quick_runs=200000, thorough_runs=8000000),
+    ]),
+    "C18": dict(level="exploration", parts=[
+        dict(prop="REG", harness="api_pbt", quick=dict(count=0, workers=1), thorough=dict(count=0, workers=1)),  # regression scenarios
+        dict(prop="C18", harness="table_pbt", quick=dict(count=2400, workers=8), thorough=dict(count=140000, workers=16),
+             essential=_V2_SCHEMAS + ["column-range=0", "column-range=1", "column-range=2", "row>=40-populated", "add", "update", "remove",
+                                      "nonexistent-row", "unsupported-column", "origin:fix-up"] +
+                       ["set_" + c for c in ["play_order", "length", "bpm", "year", "path", "filename", "bitrate", "bpm_analyzed", "album_art_id",
+                        "file_bytes", "title", "artist", "album", "genre", "comment", "label", "composer", "remixer", "key", "rating",
+                        "album_art", "time_last_played", "is_played", "file_type", "is_analyzed", "date_created", "date_added",
+                        "is_available", "is_metadata_of_packed_track_changed", "is_performance_data_of_packed_track_changed",
+                        "played_indicator", "is_metadata_imported", "pdb_import_key", "streaming_source", "uri", "is_beat_grid_locked",
+                        "origin_database_uuid", "origin_track_id", "track_data", "overview_waveform_data", "beat_data", "quick_cues", "loops",
+                        "third_party_source_id", "streaming_flags", "explicit_lyrics", "active_on_load_loops", "last_edit_time"]]),
+        dict(prop="C18.lists", harness="table_pbt", quick=dict(count=4000, workers=8), thorough=dict(count=200000, workers=16),
+             essential=_V2_SCHEMAS + ["playlist:add", "playlist:update", "playlist:remove", "playlist:nonexistent", "entity:add_back",
+                                      "entity:clear", "entity:remove-non-last"]),
     ]),
     "C19": dict(level="exploration", parts=[
         dict(prop="REG", harness="api_pbt", quick=dict(count=0, workers=1), thorough=dict(count=0, workers=1)),  # regression scenarios
@@ -204,6 +221,16 @@ RULES = {
            "_GLIBCXX_ASSERTIONS and a 30 s watchdog; when the frame is well-formed zlib_uncompress must agree with one-shot inflate. fuzz part: "
            "libFuzzer (ASan+UBSan, -timeout=20) on 11 decoders + zlib_uncompress, seeds = generator-made valid blobs. Every input is "
            "non-trivial in the sense that it reaches a decoder; distinct = distinct byte strings (pbt) + coverage-increasing corpus units (fuzz).",
+    "C18": "track part: case = 2.x schema + up to 9 operations on track_table (add / update of a generated 49-field row: every optional "
+           "present or absent, strings incl. quotes/UTF-8/300+ bytes, int64 edges and pairwise distinct values in same-typed columns, bools, "
+           "whole-second time points incl. pre-1970 and year 2255, generated encodable blob structs; per-column set_<col> with a value taken "
+           "from a freshly generated row; remove; accessors, update and remove naming a never-issued or removed id). Row model: after every "
+           "step, for every live row, get(id) equals the row written column by column (except id, last-edit time, and the origin pair when "
+           "written empty/0 which must read (library uuid, id)), every get_<col> equals that column, all_ids() equals the live set; columns "
+           "a schema lacks throw unsupported_operation; accessors and remove() on a nonexistent row must throw. lists part: playlist_table "
+           "add/get/update/remove and playlist_entity_table add_back/get/remove/clear/track_ids against an ordered model, remove() of unknown "
+           "rows must throw. Non-trivial = a row with >= 40 of 49 columns populated was written (track part) / >= 2 lists or a non-last "
+           "entity removal (lists part).",
     "C19": "Each case = (sample_count, sample_rate) decoded from rapidcheck-generated choices: boundary tables (0, 1, 209..211, "
            "419..421, 2^31, 2^53+-1, 2^62, k*q+{-1,0,1,q-1}) mixed with uniform draws over [0,2^62] x [0,2^31]; the compiled "
            "functions are compared with an exact unsigned-128-bit integer reference and with the metamorphic relations n->n+1, "
@@ -235,6 +262,9 @@ ASSUMPTIONS = {
     "C04": ["payload = what zlib one-shot inflate yields for the single well-formed frame (identity for loops)"],
     "C05": ["allocations above 256 MiB (pbt) / 64 MiB (fuzz targets, inputs <= 6000 bytes) are turned into std::bad_alloc by the harness's operator new (ASan's cannot throw)",
             "hangs are judged by a 30 s (pbt) / 20 s (libFuzzer) watchdog, confirmed by 3 replays"],
+    "C18": ["REAL columns cannot hold NaN (SQLite stores it as NULL): NaN is outside the generated domain for bpm_analyzed",
+            "paths and (originDatabaseUuid, originTrackId) pairs are generated unique (schema constraints)",
+            "update() of a nonexistent row is only required not to create a row (the property names column accessors and remove())"],
     "C19": ["IEEE-754 binary64 arithmetic with round-to-nearest in the harness", "sample rates are finite and within [0, 2^31] as the property states"],
     "C20": ["grids are strictly increasing in offset and index (property domain)",
             "tempo is restricted so that every normalised index fits in a 32-bit int with margin (|index| < 2^30); "
@@ -250,6 +280,8 @@ ENGINES = [
          kind_free_text="rapidcheck-driven value/byte generators vs refcodec (independent layout implementation), round-trip and byte-preservation oracles, ASan+UBSan"),
     dict(name="codec_fuzz", path="harness/codec_fuzz.cpp", serves_properties=["C04", "C05"],
          kind_free_text="12 libFuzzer targets (clang, ASan+UBSan) with the C03/C04/C05 oracles inside the target"),
+    dict(name="table_pbt", path="harness/table_pbt.cpp", serves_properties=["C18"],
+         kind_free_text="rapidcheck-driven operation sequences on the 2.x table API vs a row model (49 track columns via a column table, playlists, entities)"),
     dict(name="numeric_pbt", path="harness/numeric_pbt.cpp", serves_properties=["C19", "C20"],
          kind_free_text="rapidcheck-driven generated inputs vs exact-integer reference and validity predicates"),
 ]
@@ -316,6 +348,10 @@ MANIFEST_TEXT = {
                 text="Arbitrary and structured-corrupt byte strings into all 11 decoders and zlib_uncompress: return or std::exception, no "
                      "sanitizer report, no assertion, no hang.",
                 note="A bound on run time (watchdog), not a termination proof; allocations >256 MiB (64 MiB in fuzz targets) become bad_alloc."),
+    "C18": dict(engine="table_pbt", design_ref="DESIGN.md 6/C18",
+                technique="model-based property testing: generated rows and operation sequences on the 2.x table API vs a row model with a per-column accessor table",
+                text="Generated 49-column rows with pairwise distinct same-typed values; every row and every per-column accessor is compared with the model after every step on all seven 2.x schemas.",
+                note="Trusts the harness's column table (one macro line per column)."),
     "C19": dict(engine="numeric_pbt", design_ref="DESIGN.md 6/C19",
                 technique="property-based testing: generated (count, rate) pairs vs exact 128-bit integer reference + metamorphic monotonicity",
                 text="Generated-input search (boundary tables + uniform draws over the stated domain) comparing the compiled functions "
